@@ -64,6 +64,17 @@ func coResume(L *LState) int {
 		L.Push(LString(msg))
 		return 2
 	}
+	if th.stack.IsEmpty() {
+		// the body was a host function that yielded (coroutine.wrap(coroutine.yield)): nothing is left
+		// to run, the values of this resume are the coroutine's results
+		th.kill()
+		if th.wrapped {
+			L.Remove(1)
+		} else {
+			L.Replace(1, LTrue)
+		}
+		return L.GetTop()
+	}
 	if L.Status(th) == "normal" {
 		// it is waiting for the thread it resumed (an ancestor of the running one)
 		msg := "can not resume a normal thread"
